@@ -2,6 +2,7 @@ package props
 
 import (
 	"fmt"
+	"math"
 
 	"github.com/sahandsafizadeh/qeep/component/metrics"
 	"github.com/sahandsafizadeh/qeep/tensor"
@@ -36,7 +37,7 @@ func (c19) Extra() map[string]any {
 	return e
 }
 
-var c19Labels = []float64{0, 1, 2, 3, 0.5, 1.5, -1, 7, 1e6, -0.25}
+var c19Labels = []float64{0, 1, 2, 3, 0.5, 1.5, -1, 7, 1e6, -0.25, math.Copysign(0, -1), 1e300, -1e300, 1e-200}
 
 var c19Bad = []string{"nil-yp", "nil-yt", "nil-both", "rank0", "rank2", "len-mismatch", "rank-mixed"}
 
@@ -61,6 +62,9 @@ func (c19) Generate(r *sim.Rand, tier string) *sim.Scenario {
 	maxCalls := 24
 	if tier == "thorough" {
 		maxCalls = 40
+	}
+	if r.Bool(0.1) {
+		maxCalls *= 3 // long histories
 	}
 	ncalls := r.Range(1, maxCalls)
 	pFault := []float64{0, 0.1, 0.25}[r.Intn(3)]
